@@ -528,6 +528,21 @@ func (ex *Exec) typeFacts(st *State, t string, T types.Type) {
 		if f := ex.ifaceFact(t, T); f != "true" {
 			ex.assume(st, f)
 		}
+		// a pointer held in an interface value refers to an allocated object (like any loaded pointer)
+		if it, ok := T.Underlying().(*types.Interface); ok && it.NumMethods() > 0 {
+			if n, isNamed := types.Unalias(T).(*types.Named); !isNamed || n.Obj().Pkg() != nil {
+				impls := ex.prog.implementers(T)
+				if len(impls) > 0 && len(impls) <= 16 {
+					al := ex.allocSet(st)
+					for _, c := range impls {
+						if _, isPtr := c.Underlying().(*types.Pointer); isPtr {
+							ctor := ex.vc.tc.dynCtor(c)
+							ex.assume(st, sImp(sx("(_ is "+ctor+")", t), sx("select", al, sx("un"+ctor, t))))
+						}
+					}
+				}
+			}
+		}
 	}
 }
 
